@@ -14,6 +14,10 @@ def _tmp(ctx):
         kern.rule_band(ctx, F)
         kern.rule_recurrence(ctx, F)
         kern.rule_prune(ctx, F)
+        kern.rule_psi(ctx, F)
+        kern.rule_clamp(ctx, F)
+        if F.lang == 'c':
+            kern.rule_dom_c(ctx, F)
 
 
 PROPS = {'T00': (_tmp, 'scratch')}
